@@ -143,9 +143,9 @@ Theorem proto_subject_kind p t : tuple_from_data_provider p = Ok t ->
 Proof.
   unfold tuple_from_data_provider. destruct (p_sub p) as [[[s|n o r]|]|]; intros H; inversion H; cbn; eauto 8.
 Qed.
-(* D11 (unchanged tree): FromProto panics when the subject is absent *)
-Lemma from_proto_panics_refuted : exists p, tuple_from_proto p = Panic.
-Proof. exists {| p_ns := []; p_obj := []; p_rel := []; p_sub := None |}. reflexivity. Qed.
+(* after fix D11b: no decoder panics on any message *)
+Theorem proto_decoders_total p : tuple_from_proto p <> Panic /\ tuple_from_data_provider p <> Panic.
+Proof. unfold tuple_from_proto, tuple_from_data_provider. destruct (p_sub p) as [[[s|n o r]|]|]; split; discriminate. Qed.
 
 (* ---------- JSON ---------- *)
 Lemma key_is_self_namespace : key_is K_namespace K_namespace = true. Proof. reflexivity. Qed.
